@@ -5,3 +5,25 @@ import "testing"
 func TestC16_Keys(t *testing.T) {
 	checkRapid(t, "C16", "TestC16_Keys", ruleC16, drawC16)
 }
+
+func TestC16_Collide(t *testing.T) {
+	cases := collisionCases()
+	st := NewStats("C16", "TestC16_Collide", ruleC16Collide)
+	defer st.Flush()
+	startWatchdog()
+	fn := replayers["TestC16_Collide"]
+	shard, nshards := shardInfo()
+	for i, c := range cases {
+		if i%nshards != shard {
+			continue
+		}
+		c.Property, c.Check = "C16", "TestC16_Collide"
+		st.Case()
+		enterCase(c)
+		msg := safeRun(fn, c, st)
+		leaveCase()
+		if msg != "" {
+			Fail(t, c, "%s", msg)
+		}
+	}
+}
